@@ -7,7 +7,13 @@ import (
 )
 
 func BuildAnnotation(ctx *parser.AnnotationContext) core_domain.CodeAnnotation {
-	annotationName := ctx.QualifiedName().GetText()
+	// "a.b.@Name" (annotation on a qualified type) is parsed with altAnnotationQualifiedName, not qualifiedName
+	annotationName := ""
+	if ctx.QualifiedName() != nil {
+		annotationName = ctx.QualifiedName().GetText()
+	} else if ctx.AltAnnotationQualifiedName() != nil {
+		annotationName = ctx.AltAnnotationQualifiedName().GetText()
+	}
 	annotation := core_domain.NewAnnotation()
 	annotation.Name = annotationName
 	if ctx.ElementValuePairs() != nil {
